@@ -66,7 +66,12 @@ package authenticators
 // (conf is the function's local decode target; its value at exit is what the decoder produced)
 
 //@ func (*jwtAuthenticator).WithConfig
-//@   props C04
+//@   props C04 C05
+//@   ensures ret1 == nil && old(len(config)) != 0 ==> merge.n == old(merge.n) + 1 && merge.arg1[old(merge.n)] == old(a.a) && unbox(ret0, *jwtAuthenticator).a == merge.ret0[old(merge.n)]
+//@   ensures ret1 == nil && old(len(config)) != 0 && conf.Assertions.ScopesMatcher == nil ==> unbox(ret0, *jwtAuthenticator).a.ScopesMatcher == old(a.a.ScopesMatcher)
+//@   ensures ret1 == nil && old(len(config)) != 0 && len(conf.Assertions.Audiences) == 0 ==> unbox(ret0, *jwtAuthenticator).a.Audiences == old(a.a.Audiences)
+//@   ensures ret1 == nil && old(len(config)) != 0 && len(conf.Assertions.TrustedIssuers) == 0 ==> unbox(ret0, *jwtAuthenticator).a.TrustedIssuers == old(a.a.TrustedIssuers)
+//@   ensures ret1 == nil && old(len(config)) != 0 && len(conf.Assertions.AllowedAlgorithms) == 0 ==> unbox(ret0, *jwtAuthenticator).a.AllowedAlgorithms == old(a.a.AllowedAlgorithms)
 //@   ensures old(len(config)) == 0 ==> ret1 == nil && unbox(ret0, *jwtAuthenticator) == a
 //@   ensures ret1 == nil && old(len(config)) != 0 && conf.AllowFallbackOnError != nil ==> unbox(ret0, *jwtAuthenticator).allowFallbackOnError == *conf.AllowFallbackOnError
 //@   ensures ret1 == nil && old(len(config)) != 0 && conf.AllowFallbackOnError == nil ==> unbox(ret0, *jwtAuthenticator).allowFallbackOnError == old(a.allowFallbackOnError)
@@ -112,3 +117,17 @@ package authenticators
 //@   ensures shanew.n > old(shanew.n) && ehash.n == old(ehash.n) + 1
 //@   ensures (exists k int :: old(hw.n) <= k && k < hw.n && hw.arg0[k] == shanew.ret0[old(shanew.n)] && hw.arg1[k] == ehash.ret0[old(ehash.n)])
 //@   ensures (exists k int :: old(hw.n) <= k && k < hw.n && hw.arg0[k] == shanew.ret0[old(shanew.n)] && hw.arg1[k] == bytesOf(reference))
+
+// ---- C05: a JWT yields a subject only if verified with a key whose declared algorithm equals the
+// token's and is allowed, and the verified claims satisfy the assertions in force ----
+
+//@ func (*jwtAuthenticator).verifyTokenWithKey
+//@   props C05
+//@   logged vtk
+//@   requires len(token.Headers) > 0
+//@   ensures ret1 == nil ==> old(key.Algorithm) == old(token.Headers[0].Algorithm) || len(old(token.Headers[0].Algorithm)) == 0
+//@   ensures ret1 == nil ==> aalg.n == old(aalg.n) + 1 && aalg.arg0[old(aalg.n)] == old(*assertions) && aalg.arg1[old(aalg.n)] == old(key.Algorithm) && aalg.ret0[old(aalg.n)] == nil
+//@   ensures ret1 == nil ==> tclaims.n == old(tclaims.n) + 1 && tclaims.arg0[old(tclaims.n)] == token && tclaims.arg1[old(tclaims.n)] == iface(key) && tclaims.ret0[old(tclaims.n)] == nil
+//@   ensures ret1 == nil ==> cval.n == old(cval.n) + 1 && cval.ret0[old(cval.n)] == nil && cval.arg1[old(cval.n)] == *assertions
+//@   ensures ret1 == nil ==> jm.n > old(jm.n) && ret0 == jm.ret0[jm.n - 1]
+
